@@ -1,4 +1,4 @@
-import CardVerif.Model.Rank5
+import CardModel.Model.Rank5
 /-!
 # The rules of high poker for five cards (C05), stated without reference to the implementation
 
